@@ -1390,4 +1390,439 @@ theorem unmarshal_ok_structure {s : Str} {p : Multivariant} (h : Multivariant.un
     exact ⟨by intro e; apply hlen; simp [e], GoodM_runLines _ _ _ _ (Nat.le_refl _) GoodM_empty hm⟩
 
 
+/-! ## findType -/
+
+/-- the case of `findType`'s switch a newline-terminated line selects -/
+def kindOfLine (l : Str) : Option Kind :=
+  (findTypeTable.find? fun pk => hasPrefix pk.1 (l ++ ['\n'])).map (·.2)
+
+theorem findType_no_newline {s : Str} (h : '\n' ∉ s) : findType s = .error .eof := by
+  rw [findType]
+  split
+  · rfl
+  · rename_i i hi
+    rw [indexByte_none_of_not_mem h] at hi; cases hi
+
+theorem findType_line {l : Str} (rest : Str) (h : '\n' ∉ l) :
+    findType (l ++ '\n' :: rest) =
+      match kindOfLine l with
+      | some k => .ok k
+      | none => findType rest := by
+  rw [findType]
+  have hi := indexByte_append_of_not_mem rest h
+  split
+  · rename_i hn; rw [hi] at hn; cases hn
+  · rename_i i hi'
+    rw [hi] at hi'
+    have : i = l.length := (Option.some.inj hi').symm
+    subst this
+    have e1 : List.take (l.length + 1) (l ++ '\n' :: rest) = l ++ ['\n'] := by
+      rw [show l ++ '\n' :: rest = (l ++ ['\n']) ++ rest by simp]
+      rw [List.take_append_of_le_length (by simp)]
+      exact List.take_of_length_le (by simp)
+    have e2 : List.drop (l.length + 1) (l ++ '\n' :: rest) = rest := by
+      rw [show l ++ '\n' :: rest = (l ++ ['\n']) ++ rest by simp]
+      rw [List.drop_append_of_le_length (by simp)]
+      rw [List.drop_of_length_le (by simp)]; rfl
+    simp only [e1, e2, kindOfLine]
+    cases List.find? (fun pk => hasPrefix pk.fst (l ++ ['\n'])) findTypeTable <;> simp
+
+/-- The rule `findType` implements: the first newline-terminated line that starts with
+    `#EXT-X-STREAM-INF:` or `#EXTINF:` decides. -/
+theorem findType_first {pre : List Str} {l0 : Str} (rest : Str) {k : Kind}
+    (hpre : ∀ l ∈ pre, '\n' ∉ l ∧ kindOfLine l = none) (h0 : '\n' ∉ l0) (hk : kindOfLine l0 = some k) :
+    findType (unlines pre ++ (l0 ++ '\n' :: rest)) = .ok k := by
+  induction pre with
+  | nil => simp only [unlines_nil, List.nil_append]; rw [findType_line _ h0, hk]
+  | cons l r ih =>
+    have hl := hpre l (by simp)
+    rw [unlines_cons, List.append_assoc, List.cons_append, findType_line _ hl.1, hl.2]
+    exact ih (fun x hx => hpre x (by simp [hx]))
+
+/-- … and without such a line the answer is `io.EOF`. -/
+theorem findType_none {pre : List Str} {tail : Str}
+    (hpre : ∀ l ∈ pre, '\n' ∉ l ∧ kindOfLine l = none) (ht : '\n' ∉ tail) :
+    findType (unlines pre ++ tail) = .error .eof := by
+  induction pre with
+  | nil => simp only [unlines_nil, List.nil_append]; exact findType_no_newline ht
+  | cons l r ih =>
+    have hl := hpre l (by simp)
+    rw [unlines_cons, List.append_assoc, List.cons_append, findType_line _ hl.1, hl.2]
+    exact ih (fun x hx => hpre x (by simp [hx]))
+
+theorem kindOfLine_nil : kindOfLine [] = none := by
+  simp [kindOfLine, findTypeTable, hasPrefix, tagStreamInf, tagExtinf]
+theorem kindOfLine_header : kindOfLine headerLit = none := by
+  simp [kindOfLine, findTypeTable, hasPrefix, tagStreamInf, tagExtinf, headerLit]
+theorem kindOfLine_version (x : Str) : kindOfLine (tagVersion ++ x) = none := by
+  simp [kindOfLine, findTypeTable, hasPrefix, tagStreamInf, tagExtinf, tagVersion]
+theorem kindOfLine_indep : kindOfLine tagIndependentSegments = none := by
+  simp [kindOfLine, findTypeTable, hasPrefix, tagStreamInf, tagExtinf, tagIndependentSegments]
+theorem kindOfLine_start (x : Str) : kindOfLine (tagStart ++ x) = none := by
+  simp [kindOfLine, findTypeTable, hasPrefix, tagStreamInf, tagExtinf, tagStart]
+theorem kindOfLine_media (x : Str) : kindOfLine (tagMedia ++ x) = none := by
+  simp [kindOfLine, findTypeTable, hasPrefix, tagStreamInf, tagExtinf, tagMedia]
+theorem kindOfLine_streamInf (x : Str) : kindOfLine (tagStreamInf ++ x) = some .multivariant := by
+  simp [kindOfLine, findTypeTable, hasPrefix, tagStreamInf]
+
+
+/-- the lines `Marshal` writes before the first EXT-X-STREAM-INF -/
+def preambleLines (m : Multivariant) : List Str :=
+  [headerLit, tagVersion ++ formatInt m.version]
+  ++ (if m.independentSegments then [tagIndependentSegments] else [])
+  ++ (match m.start with
+      | some st => [tagStart ++ renderAttrs (startAttrs st)]
+      | none => [])
+  ++ (if m.renditions.length ≠ 0 then [] :: m.renditions.map (fun r => tagMedia ++ renderAttrs (renditionAttrs r)) else [])
+  ++ [[]]
+
+theorem marshalLines_eq (m : Multivariant) :
+    marshalLines m = preambleLines m ++
+      (m.variants.map (fun v => [tagStreamInf ++ renderAttrs (variantAttrs v), v.uri])).flatten := rfl
+
+theorem preamble_no_kind (m : Multivariant) : ∀ l ∈ preambleLines m, kindOfLine l = none := by
+  intro l hl
+  unfold preambleLines at hl
+  simp only [List.mem_append, List.mem_cons, List.mem_map] at hl
+  rcases hl with (((hl | hl) | hl) | hl) | hl
+  · rcases hl with hl | hl | hl
+    · rw [hl]; exact kindOfLine_header
+    · rw [hl]; exact kindOfLine_version _
+    · cases hl
+  · split at hl
+    · simp at hl; rw [hl]; exact kindOfLine_indep
+    · cases hl
+  · split at hl
+    · simp at hl; rw [hl]; exact kindOfLine_start _
+    · cases hl
+  · split at hl
+    · simp only [List.mem_cons, List.mem_map] at hl
+      rcases hl with hl | ⟨r, _, hl⟩
+      · rw [hl]; exact kindOfLine_nil
+      · rw [← hl]; exact kindOfLine_media _
+    · cases hl
+  · rcases hl with hl | hl
+    · rw [hl]; exact kindOfLine_nil
+    · cases hl
+
+/-- C14 `kind`: `playlist.Unmarshal` recognises a marshalled multivariant playlist. -/
+theorem findType_marshal {p : Multivariant} (h : WFMultivariant p) : findType p.marshal = .ok .multivariant := by
+  have hclean := clean_marshalLines h
+  obtain ⟨_, _, hne, hvs, _⟩ := h
+  rw [Multivariant.marshal_eq_unlines, marshalLines_eq]
+  rw [marshalLines_eq] at hclean
+  cases hv : p.variants with
+  | nil => exact absurd hv hne
+  | cons v vs =>
+    rw [hv] at hclean
+    simp only [List.map_cons, List.flatten_cons, List.cons_append, List.nil_append, unlines_append, unlines_cons]
+    have hvl : CleanLine (tagStreamInf ++ renderAttrs (variantAttrs v)) :=
+      hclean _ (by simp)
+    exact findType_first _
+      (fun l hl => ⟨(hclean l (by simp [hl])).1, preamble_no_kind p l hl⟩) hvl.1 (kindOfLine_streamInf _)
+
+
+/-! ## Syntactic variants: unknown lines -/
+
+theorem isStreamInf_of_dispatch_none {u : Str} (h : dispatch u = none) : isStreamInf u = false := by
+  simp [isStreamInf, h]
+
+theorem tagStep_unknown (m : Multivariant) {u : Str} (h : dispatch u = none) : tagStep m u = .ok m := by
+  simp [tagStep, lineStep, h, Except.map]
+
+/-- Lines the decoder does not know are skipped, wherever they are inserted (except between an
+    EXT-X-STREAM-INF line and its URI line). -/
+theorem runLines_padUnknown {ls ls' : List Str} (h : PadUnknown ls ls') : ∀ m, runLines m ls' = runLines m ls := by
+  induction h with
+  | nil => intro m; rfl
+  | unknown hu _ ih =>
+    intro m
+    rw [runLines_cons_tag _ (isStreamInf_of_dispatch_none hu), tagStep_unknown m hu]
+    simp only [Except.bind]
+    exact ih m
+  | keep hl _ ih =>
+    intro m
+    rw [runLines_cons_tag _ hl, runLines_cons_tag _ hl]
+    cases tagStep m _ with
+    | error e => rfl
+    | ok m' => simp only [Except.bind]; exact ih m'
+  | keep2 hl _ ih =>
+    intro m
+    rw [runLines_cons_variant _ _ hl, runLines_cons_variant _ _ hl]
+    cases variantStep m _ _ with
+    | error e => rfl
+    | ok m' => simp only [Except.bind]; exact ih m'
+  | keepLast hl => intro m; rfl
+
+/-! ## Syntactic variants: CRLF line ends -/
+
+theorem toCRLF_of_no_nl {s : Str} (h : '\n' ∉ s) : toCRLF s = s := by
+  induction s with
+  | nil => rfl
+  | cons c cs ih =>
+    have hc : c ≠ '\n' := by intro e; apply h; simp [e]
+    have hcs : '\n' ∉ cs := by intro e; apply h; simp [e]
+    simp [toCRLF, hc, ih hcs]
+
+theorem toCRLF_line {l : Str} (rest : Str) (h : '\n' ∉ l) :
+    toCRLF (l ++ '\n' :: rest) = l ++ '\r' :: '\n' :: toCRLF rest := by
+  induction l with
+  | nil => simp [toCRLF]
+  | cons c cs ih =>
+    have hc : c ≠ '\n' := by intro e; apply h; simp [e]
+    have hcs : '\n' ∉ cs := by intro e; apply h; simp [e]
+    simp [toCRLF, hc, ih hcs]
+
+/-- every text is an unterminated line, or a first line followed by LF and the rest -/
+theorem line_decomp (s : Str) : '\n' ∉ s ∨ ∃ l rest, s = l ++ '\n' :: rest ∧ '\n' ∉ l := by
+  cases h : indexByte '\n' s with
+  | none => exact Or.inl (indexByte_none_spec h)
+  | some i => exact Or.inr ⟨_, _, (indexByte_some_spec h).1, (indexByte_some_spec h).2⟩
+
+theorem readLineSpec_toCRLF {s : Str} (h : '\r' ∉ s) :
+    readLineSpec (toCRLF s) = ((readLineSpec s).1, toCRLF (readLineSpec s).2) := by
+  rcases line_decomp s with hn | ⟨l, rest, hs, hl⟩
+  · rw [toCRLF_of_no_nl hn, readLineSpec_last hn]; rfl
+  · subst hs
+    have hlr : '\r' ∉ l := fun e => h (by simp [e])
+    rw [toCRLF_line _ hl, readLineSpec_crlf _ hl,
+      readLineSpec_line _ hl (fun e => hlr (List.mem_of_getLast? e))]
+
+theorem toCRLF_eq_nil {s : Str} : toCRLF s = [] ↔ s = [] := by
+  cases s with
+  | nil => simp [toCRLF]
+  | cons c cs => simp only [toCRLF]; split <;> simp
+
+theorem textLines_toCRLF (n : Nat) : ∀ s : Str, s.length ≤ n → '\r' ∉ s → textLines (toCRLF s) = textLines s := by
+  induction n with
+  | zero =>
+    intro s hs _
+    have : s = [] := by cases s with | nil => rfl | cons _ _ => simp at hs
+    subst this; rfl
+  | succ n ih =>
+    intro s hs hr
+    cases hs0 : s with
+    | nil => rfl
+    | cons c cs =>
+      have hne : s ≠ [] := by rw [hs0]; simp
+      have hne' : toCRLF s ≠ [] := fun e => hne (toCRLF_eq_nil.mp e)
+      rw [← hs0, textLines_ne_nil hne', textLines_ne_nil hne, readLineSpec_toCRLF hr]
+      simp only
+      have hlt := readLineSpec_snd_lt hne
+      have hsub : '\r' ∉ (readLineSpec s).2 := by
+        rcases line_decomp s with hn | ⟨l, rest, hs', hl⟩
+        · rw [readLineSpec_last hn]; simp
+        · rw [hs']
+          have hr' := hr
+          rw [hs'] at hr'
+          have hlr : '\r' ∉ l := fun e => hr' (by simp [e])
+          rw [readLineSpec_line _ hl (fun e => hlr (List.mem_of_getLast? e))]
+          exact fun e => hr' (by simp [e])
+      rw [ih _ (by omega) hsub]
+
+/-- `Multivariant.Unmarshal` in terms of the line view -/
+def postCheck (m : Multivariant) : Res Multivariant :=
+  if m.variants.length = 0 then .error (.cls "novariants") else .ok m
+
+theorem unmarshal_eq_lines (s : Str) :
+    Multivariant.unmarshal s =
+      if (readLineSpec s).1 ≠ headerLit then .error .hdr
+      else (runLines {} (textLines (readLineSpec s).2)).bind postCheck := by
+  unfold Multivariant.unmarshal skipHeader
+  rw [readLine_eq]
+  simp only [bind, Except.bind, pure, Except.pure]
+  by_cases hh : (readLineSpec s).1 ≠ headerLit
+  · simp [hh]
+  · simp only [hh, if_false]
+    rw [unmarshalLoop_eq_runLines _ _ _ (Nat.le_refl _)]
+    cases runLines {} (textLines (readLineSpec s).2) <;> simp [postCheck]
+
+theorem no_cr_rest {s : Str} (h : '\r' ∉ s) : '\r' ∉ (readLineSpec s).2 := by
+  rcases line_decomp s with hn | ⟨l, rest, hs', hl⟩
+  · rw [readLineSpec_last hn]; simp
+  · subst hs'
+    have hlr : '\r' ∉ l := fun e => h (by simp [e])
+    rw [readLineSpec_line _ hl (fun e => hlr (List.mem_of_getLast? e))]
+    exact fun e => h (by simp [e])
+
+/-- CRLF line ends decode to the same value (or the same error). -/
+theorem unmarshal_toCRLF {s : Str} (h : '\r' ∉ s) : Multivariant.unmarshal (toCRLF s) = Multivariant.unmarshal s := by
+  rw [unmarshal_eq_lines, unmarshal_eq_lines, readLineSpec_toCRLF h]
+  simp only
+  rw [textLines_toCRLF _ _ (Nat.le_refl _) (no_cr_rest h)]
+
+/-- Unknown lines after the header line decode to the same value (or the same error). -/
+theorem unmarshal_padUnknown {s s' : Str} (hh : (readLineSpec s').1 = (readLineSpec s).1)
+    (hp : PadUnknown (textLines (readLineSpec s).2) (textLines (readLineSpec s').2)) :
+    Multivariant.unmarshal s' = Multivariant.unmarshal s := by
+  rw [unmarshal_eq_lines, unmarshal_eq_lines, hh, runLines_padUnknown hp]
+
+
+/-! ## Syntactic variants: missing trailing newline -/
+
+theorem bind_ok_id {α} (x : Res α) : x.bind (fun a => .ok a) = x := by cases x <;> rfl
+
+theorem runLines_snoc_blank (n : Nat) : ∀ (m : Multivariant) (ls : List Str), ls.length ≤ n →
+    runLines m (ls ++ [[]]) = runLines m ls := by
+  induction n with
+  | zero =>
+    intro m ls h
+    have : ls = [] := by cases ls with | nil => rfl | cons _ _ => simp at h
+    subst this
+    simp [runLines, isStreamInf_nil, tagStep_nil]
+  | succ n ih =>
+    intro m ls h
+    match ls with
+    | [] => simp [runLines, isStreamInf_nil, tagStep_nil]
+    | [l] =>
+      simp only [List.cons_append, List.nil_append, runLines]
+      split
+      · exact bind_ok_id _
+      · simp only [isStreamInf_nil, Bool.false_eq_true, if_false, tagStep_nil]
+        exact bind_ok_id _
+    | l :: l2 :: ls' =>
+      simp only [List.cons_append, runLines]
+      split
+      · cases variantStep m l l2 with
+        | error e => rfl
+        | ok m' => simp only [Except.bind]; exact ih m' ls' (by simp at h; omega)
+      · cases tagStep m l with
+        | error e => rfl
+        | ok m' =>
+          simp only [Except.bind]
+          have := ih m' (l2 :: ls') (by simp at h ⊢; omega)
+          simpa using this
+
+theorem textLines_snoc_nl (n : Nat) : ∀ s : Str, s.length ≤ n → '\r' ∉ s →
+    textLines (s ++ ['\n']) = textLines s ∨ textLines (s ++ ['\n']) = textLines s ++ [[]] := by
+  induction n with
+  | zero =>
+    intro s hs _
+    have : s = [] := by cases s with | nil => rfl | cons _ _ => simp at hs
+    subst this
+    right
+    rw [List.nil_append, textLines_ne_nil (by simp), textLines_nil]
+    simp [readLineSpec, indexByte, textLines_nil]
+  | succ n ih =>
+    intro s hs hr
+    by_cases hs0 : s = []
+    · subst hs0
+      right
+      rw [List.nil_append, textLines_ne_nil (by simp), textLines_nil]
+      simp [readLineSpec, indexByte, textLines_nil]
+    · rcases line_decomp s with hn | ⟨l, rest, hs', hl⟩
+      · left
+        have hlast : s.getLast? ≠ some '\r' := fun e => hr (List.mem_of_getLast? e)
+        rw [textLines_ne_nil (by simp), textLines_ne_nil hs0]
+        have := readLineSpec_line [] hn hlast
+        rw [this, readLineSpec_last hn]
+      · subst hs'
+        have hlr : '\r' ∉ l := fun e => hr (by simp [e])
+        have hrr : '\r' ∉ rest := fun e => hr (by simp [e])
+        have hlast : l.getLast? ≠ some '\r' := fun e => hlr (List.mem_of_getLast? e)
+        have e1 : (l ++ '\n' :: rest) ++ ['\n'] = l ++ '\n' :: (rest ++ ['\n']) := by simp
+        rw [e1, textLines_ne_nil (by simp), textLines_ne_nil (s := l ++ '\n' :: rest) (by simp),
+          readLineSpec_line _ hl hlast, readLineSpec_line _ hl hlast]
+        simp only
+        rcases ih rest (by simp at hs; omega) hrr with h | h
+        · left; rw [h]
+        · right; rw [h]; simp
+
+theorem readLineSpec_snoc_nl {s : Str} (hr : '\r' ∉ s) :
+    (readLineSpec (s ++ ['\n'])).1 = (readLineSpec s).1 ∧
+      ((readLineSpec (s ++ ['\n'])).2 = (readLineSpec s).2 ∨
+       (readLineSpec (s ++ ['\n'])).2 = (readLineSpec s).2 ++ ['\n']) := by
+  rcases line_decomp s with hn | ⟨l, rest, hs', hl⟩
+  · have hlast : s.getLast? ≠ some '\r' := fun e => hr (List.mem_of_getLast? e)
+    rw [readLineSpec_line [] hn hlast, readLineSpec_last hn]
+    exact ⟨rfl, Or.inl rfl⟩
+  · subst hs'
+    have hlr : '\r' ∉ l := fun e => hr (by simp [e])
+    have hlast : l.getLast? ≠ some '\r' := fun e => hlr (List.mem_of_getLast? e)
+    have e1 : (l ++ '\n' :: rest) ++ ['\n'] = l ++ '\n' :: (rest ++ ['\n']) := by simp
+    rw [e1, readLineSpec_line _ hl hlast, readLineSpec_line _ hl hlast]
+    exact ⟨rfl, Or.inr rfl⟩
+
+/-- A missing (or an extra) trailing newline decodes to the same value (or the same error). -/
+theorem unmarshal_snoc_nl {s : Str} (hr : '\r' ∉ s) :
+    Multivariant.unmarshal (s ++ ['\n']) = Multivariant.unmarshal s := by
+  rw [unmarshal_eq_lines, unmarshal_eq_lines]
+  obtain ⟨h1, h2⟩ := readLineSpec_snoc_nl hr
+  rw [h1]
+  rcases h2 with h2 | h2
+  · rw [h2]
+  · rw [h2]
+    rcases textLines_snoc_nl _ _ (Nat.le_refl _) (no_cr_rest hr) with h | h
+    · rw [h]
+    · rw [h, runLines_snoc_blank _ _ _ (Nat.le_refl _)]
+
+
+/-! ## Syntactic variants: attribute order, unknown attributes -/
+
+/-- each tag's decoder looks at its own keys only -/
+theorem Rendition.unmarshal_congr {x y : Str} {m1 m2 : AttrMap} (h1 : parseAttrs x = .ok m1) (h2 : parseAttrs y = .ok m2)
+    (h : ∀ k ∈ renditionKeys, m1.get k = m2.get k) : Rendition.unmarshal x = Rendition.unmarshal y := by
+  unfold Rendition.unmarshal
+  rw [h1, h2]
+  simp only [bind, Except.bind]
+  rw [h kType (by simp [renditionKeys]), h kGroupID (by simp [renditionKeys]), h kLanguage (by simp [renditionKeys]),
+    h kName (by simp [renditionKeys]), h kDefault (by simp [renditionKeys]), h kAutoselect (by simp [renditionKeys]),
+    h kForced (by simp [renditionKeys]), h kChannels (by simp [renditionKeys]), h kURI (by simp [renditionKeys]),
+    h kInstreamID (by simp [renditionKeys])]
+
+theorem Start.unmarshal_congr {x y : Str} {m1 m2 : AttrMap} (h1 : parseAttrs x = .ok m1) (h2 : parseAttrs y = .ok m2)
+    (h : ∀ k ∈ startKeys, m1.get k = m2.get k) : Start.unmarshal x = Start.unmarshal y := by
+  unfold Start.unmarshal
+  rw [h1, h2]
+  simp only [bind, Except.bind]
+  rw [h kTimeOffset (by simp [startKeys])]
+
+theorem Variant.unmarshal_congr {x y u : Str} {m1 m2 : AttrMap} (hx : '\n' ∉ x) (hy : '\n' ∉ y)
+    (h1 : parseAttrs x = .ok m1) (h2 : parseAttrs y = .ok m2)
+    (h : ∀ k ∈ variantKeys, m1.get k = m2.get k) :
+    Variant.unmarshal (x ++ '\n' :: u) = Variant.unmarshal (y ++ '\n' :: u) := by
+  unfold Variant.unmarshal
+  rw [splitByte_append _ hx, splitByte_append _ hy]
+  simp only [idx, List.getElem?_cons_zero, List.getElem?_cons_succ, bind, Except.bind]
+  rw [h1, h2]
+  simp only
+  rw [h kBandwidth (by simp [variantKeys]), h kAverageBandwidth (by simp [variantKeys]), h kCodecs (by simp [variantKeys]),
+    h kResolution (by simp [variantKeys]), h kFrameRate (by simp [variantKeys]), h kVideo (by simp [variantKeys]),
+    h kAudio (by simp [variantKeys]), h kSubtitles (by simp [variantKeys]), h kClosedCaptions (by simp [variantKeys])]
+
+/-- reordering the attributes and adding attributes with other keys does not change what a key maps to -/
+theorem lastVal_perm_unknown {as bs us : List Attr} {keys : List Str} (hp : bs.Perm (as ++ us))
+    (hn : (bs.map (·.1)).Nodup) (hu : ∀ u ∈ us, u.1 ∉ keys) {k : Str} (hk : k ∈ keys) :
+    lastVal k bs = lastVal k as := by
+  have h1 : lastVal k bs = lastVal k (as ++ us) := by
+    rw [← get_toMap, ← get_toMap]; exact toMap_perm hp hn k
+  have h2 : lastVal k us = none := by
+    apply lastVal_not_mem
+    intro hm
+    obtain ⟨u, hu', hk'⟩ := List.mem_map.mp hm
+    exact hu u hu' (by rw [hk']; exact hk)
+  rw [h1, lastVal_append, h2]; rfl
+
+/-- EXT-X-MEDIA decodes to the same value whatever the order of its attributes and whatever
+    unknown attributes are added. -/
+theorem Rendition.unmarshal_attr_variant {as bs us : List Attr} (ha : WFAttrs as) (hb : WFAttrs bs)
+    (hp : bs.Perm (as ++ us)) (hn : (bs.map (·.1)).Nodup) (hu : ∀ u ∈ us, u.1 ∉ renditionKeys) :
+    Rendition.unmarshal (renderAttrs bs) = Rendition.unmarshal (renderAttrs as) :=
+  Rendition.unmarshal_congr (parseAttrs_render _ hb) (parseAttrs_render _ ha)
+    (fun k hk => by rw [get_toMap, get_toMap]; exact lastVal_perm_unknown hp hn hu hk)
+
+theorem Start.unmarshal_attr_variant {as bs us : List Attr} (ha : WFAttrs as) (hb : WFAttrs bs)
+    (hp : bs.Perm (as ++ us)) (hn : (bs.map (·.1)).Nodup) (hu : ∀ u ∈ us, u.1 ∉ startKeys) :
+    Start.unmarshal (renderAttrs bs) = Start.unmarshal (renderAttrs as) :=
+  Start.unmarshal_congr (parseAttrs_render _ hb) (parseAttrs_render _ ha)
+    (fun k hk => by rw [get_toMap, get_toMap]; exact lastVal_perm_unknown hp hn hu hk)
+
+theorem Variant.unmarshal_attr_variant {as bs us : List Attr} {uri : Str} (ha : WFAttrs as) (hb : WFAttrs bs)
+    (hax : '\n' ∉ renderAttrs as) (hbx : '\n' ∉ renderAttrs bs)
+    (hp : bs.Perm (as ++ us)) (hn : (bs.map (·.1)).Nodup) (hu : ∀ u ∈ us, u.1 ∉ variantKeys) :
+    Variant.unmarshal (renderAttrs bs ++ '\n' :: uri) = Variant.unmarshal (renderAttrs as ++ '\n' :: uri) :=
+  Variant.unmarshal_congr hbx hax (parseAttrs_render _ hb) (parseAttrs_render _ ha)
+    (fun k hk => by rw [get_toMap, get_toMap]; exact lastVal_perm_unknown hp hn hu hk)
+
+
 end Hls.Playlist
